@@ -15,6 +15,51 @@ def dclass(d: str) -> str:
     return ("n" if ops.nullable(d) else "") + k
 
 
+COMPOSITE = ("expm1", "log1p", "logaddexp", "atan2")
+
+
+def composite_region(case, a_ok, b_ok):
+    """For the functions that ndonnx computes by a composite formula: WHERE in the domain the two results differ
+    (the known weaknesses are regional; anything outside them is a new finding)."""
+    try:
+        import numpy as np
+        f = case["meta"]["func"]
+        dec = lambda t: np.array([float("nan") if v == "nan" else float("inf") if v == "inf" else float("-inf") if v == "-inf" else (float.fromhex(v) if isinstance(v, str) else float(v))
+                                  for v in t["data"]], dtype=np.float64).reshape(t["shape"])
+        ins = [dec(case["inputs"][k]) for k in sorted(case["inputs"])][:2]
+        A, B = dec(a_ok), dec(b_ok)
+        if A.shape != B.shape:
+            return "shape"
+        if f in ("logaddexp", "atan2") and len(ins) < 2:
+            return "python-scalar"          # the second operand is a literal inside the program text
+        ins = [np.broadcast_to(x, A.shape) for x in ins]
+        f32 = "32" in case["meta"].get("dtype", "")
+        eps = 1.2e-7 if f32 else 2.3e-16
+        regs = set()
+        for idx in np.ndindex(*A.shape):
+            u, v = A[idx], B[idx]
+            if (np.isnan(u) and np.isnan(v)) or u == v or (np.isfinite(u) and np.isfinite(v) and abs(u - v) <= 64 * eps * max(abs(u), abs(v))):
+                continue
+            x = ins[0][idx]
+            y = ins[1][idx] if len(ins) > 1 else None
+            if f in ("expm1", "log1p"):
+                regs.add("near-zero" if abs(x) < 0.5 else "other")
+            elif f == "logaddexp":
+                if np.isinf(x) and np.isinf(y) and x == y:
+                    regs.add("equal-infinities")
+                elif np.isfinite(x) and np.isfinite(y) and max(abs(x), abs(y)) > (80.0 if f32 else 700.0):
+                    regs.add("overflow")
+                elif (np.isinf(x) or np.isinf(y)):
+                    regs.add("infinite-operand")
+                else:
+                    regs.add("other")
+            elif f == "atan2":      # inputs sorted by name: x (first argument, y-coordinate), y (second, x-coordinate)
+                regs.add("quadrant" if (y < 0 or (y == 0 and np.signbit(y))) else "x-zero" if y == 0 else "infinite-operand" if (np.isinf(x) or np.isinf(y)) else "other")
+        return "+".join(sorted(regs)) or "tolerance"
+    except Exception as e:      # the region is advisory; never let it break a check
+        return "unknown:" + type(e).__name__
+
+
 def attrs_of(case, kind, mode):
     a = dict(case.get("meta", {}))
     a.update({"kind": kind, "mode": mode, "zero_extent": ops.has_zero(case)})
@@ -70,7 +115,10 @@ def analyse(ctx, case, r, want=("oracle", "traced", "static")):
                                  erase_masked=case.get("erase_masked", True))
             if why:
                 n += 1
-                ctx.finding(attrs_of(case, why, "eager"), f"{what_prefix}: eager result differs from NumPy ({why})", replay_of(case, r, "eager"))
+                at = attrs_of(case, why, "eager")
+                if why == "value" and case.get("meta", {}).get("func") in COMPOSITE:
+                    at["region"] = composite_region(case, orc["ok"], eg["ok"])
+                ctx.finding(at, f"{what_prefix}: eager result differs from NumPy ({why})" + (f" [{at['region']}]" if "region" in at else ""), replay_of(case, r, "eager"))
         elif ko == "ok" and ke != "ok":
             n += 1
             ctx.finding(attrs_of(case, "raises", "eager"), f"{what_prefix}: NumPy succeeds, ndonnx {ke}: {eg.get('msg', '')[:80]}", replay_of(case, r, "eager"))
